@@ -734,7 +734,7 @@ def shrink(scn):
 class Spec(simcheck.SimSpec):
     prop = 'C04'
     level = 'exploration'
-    runs = {'quick': 12000, 'thorough': 600000}
+    runs = {'quick': 36000, 'thorough': 600000}
     shard_runs = 100
     families = [{'label': 'histories'}, {'label': 'histories-rough',
                                          'rough': True},
